@@ -26,8 +26,8 @@ struct Config {
   }
 };
 
-enum Op { OP_SETCB, OP_SETPARAMS, OP_BUILD, OP_NEW, OP_AVAIL, OP_FINISH, OP_QUERY, OP_BAD, OP_NOP };
-static const char* const op_names[] = {"setcb", "setparams", "build", "new", "avail", "finish", "query", "bad", "nop"};
+enum Op { OP_SETCB, OP_SETPARAMS, OP_BUILD, OP_NEW, OP_AVAIL, OP_FINISH, OP_QUERY, OP_BAD, OP_NOP, OP_SETCTRL };
+static const char* const op_names[] = {"setcb", "setparams", "build", "new", "avail", "finish", "query", "bad", "nop", "setctrl"};
 
 // kinds of deliberately wrong calls (C09). Each must return an error and leave the session usable.
 enum Bad {
@@ -54,6 +54,7 @@ struct Script {
   uint64_t cbmask = 0;   // bit (call# % 64) set => return NULL
   int repmode = 0;       // repair callback: 0 returns NULL, 1 returns an L-byte buffer
   uint64_t align = 0;    // seed of per-buffer alignment offsets
+  uint32_t verb = 0;     // verbosity argument of of_create_codec_instance (a process-wide setting in the library)
   std::vector<Step> steps;
 };
 
@@ -69,11 +70,11 @@ inline std::string to_text(const History& h) {
     o << "script codec=" << s.cfg.codec << " k=" << s.cfg.k << " r=" << s.cfg.r << " L=" << s.cfg.L
       << " m=" << s.cfg.m << " N1=" << s.cfg.N1 << " seed=" << s.cfg.seed << " payload=" << s.cfg.payload
       << " pseed=" << s.cfg.pseed << " role=" << s.role << " cbmode=" << s.cbmode << " cbmask=" << s.cbmask
-      << " repmode=" << s.repmode << " align=" << s.align << "\n";
+      << " repmode=" << s.repmode << " align=" << s.align << " verb=" << s.verb << "\n";
     for (const Step& st : s.steps) {
       o << " step " << op_names[st.op];
       switch (st.op) {
-        case OP_SETCB: case OP_QUERY: o << " " << st.flag; break;
+        case OP_SETCB: case OP_QUERY: case OP_SETCTRL: o << " " << st.flag; break;
         case OP_BUILD: case OP_NEW: case OP_BAD: o << " " << st.esi << " " << st.flag; break;
         case OP_AVAIL: for (uint32_t e : st.set) o << " " << e; break;
         default: break;
@@ -117,17 +118,17 @@ inline bool from_text(const std::string& text, History& h, std::string* err = nu
         else if (key == "seed") cur->cfg.seed = (uint32_t)v; else if (key == "payload") cur->cfg.payload = (int)v;
         else if (key == "pseed") cur->cfg.pseed = v; else if (key == "role") cur->role = (int)v;
         else if (key == "cbmode") cur->cbmode = (int)v; else if (key == "cbmask") cur->cbmask = v;
-        else if (key == "repmode") cur->repmode = (int)v; else if (key == "align") cur->align = v;
+        else if (key == "repmode") cur->repmode = (int)v; else if (key == "align") cur->align = v; else if (key == "verb") cur->verb = (uint32_t)v;
         else return fail("unknown key " + key);
       }
     } else if (w == "step") {
       if (!cur) return fail("step outside script");
       std::string opn; ls >> opn;
       Step st; st.op = -1;
-      for (int i = 0; i <= OP_NOP; i++) if (opn == op_names[i]) st.op = i;
+      for (int i = 0; i <= OP_SETCTRL; i++) if (opn == op_names[i]) st.op = i;
       if (st.op < 0) return fail("unknown op " + opn);
       switch (st.op) {
-        case OP_SETCB: case OP_QUERY: ls >> st.flag; break;
+        case OP_SETCB: case OP_QUERY: case OP_SETCTRL: ls >> st.flag; break;
         case OP_BUILD: case OP_NEW: case OP_BAD: ls >> st.esi >> st.flag; break;
         case OP_AVAIL: { uint32_t e; while (ls >> e) st.set.push_back(e); } break;
         default: break;
